@@ -1,6 +1,9 @@
 import re,sys,os
 os.chdir('/verif/lean')
 extra = {
+ 'C01': ['Xsel.Gen.axis_dispatch_agrees','Xsel.Gen.selector_cleanup_agrees'],
+ 'C03': ['Xsel.Gen.selector_cleanup_agrees','Xsel.Gen.inplace_ops_on_fresh'],
+ 'C06': ['Xsel.Gen.builtins_table_agree'],
  'C02': ['Xsel.Gen.no_dropped_symbol','Xsel.Gen.handlers_agree'],
  'C08': ['Xsel.Gen.no_shared_writes','Xsel.Gen.handlers_agree','Xsel.Gen.productions_agree','Xsel.Gen.no_dropped_symbol','Xsel.Gen.binary_handlers_have_two_children','Xsel.Gen.builtins_agree'],
  'C10': ['Xsel.Gen.builder_not_event_recursive'],
@@ -10,9 +13,9 @@ extra = {
  'C19': ['Xsel.Gen.no_shared_writes'],
  'C20': ['Xsel.Gen.one_write_per_block'],
  'C15': ['Xsel.Gen.partial_sites_covered','Xsel.Gen.binary_handlers_have_two_children'],
- 'C04': ['Xsel.Gen.builtins_agree'],
- 'C07': ['Xsel.Gen.builtins_agree'],
- 'C12': ['Xsel.Gen.builtins_agree'],
+ 'C04': ['Xsel.Gen.builtins_agree','Xsel.Gen.builtins_table_agree'],
+ 'C07': ['Xsel.Gen.builtins_agree','Xsel.Gen.builtins_table_agree'],
+ 'C12': ['Xsel.Gen.builtins_agree','Xsel.Gen.builtins_table_agree'],
 }
 for p in sys.argv[1:]:
     f='Proofs/%s.lean'%p
